@@ -61,6 +61,15 @@ Theorem C15_accepts_only_closed_known : forall fuel ts v rest, read_item fuel ts
 Proof. exact read_item_accepts_only. Qed.
 Print Assumptions C15_accepts_only_closed_known.
 
+(* ... and for the text as a whole (after the D53 repair): an item is returned only if ALL tokens of the text are that one item - the
+   text starts with '<' and a known type name and its last token is the closing '>'; text behind the first item (an item that is not
+   closed, an unknown type name, a literal left open) is refused *)
+Theorem C15_whole_text_is_one_item : forall src v, from_sml src = Ok v ->
+  (exists ty r u c, sml_tokens src = [c_lt] :: ty :: r /\ upper ty = Ok u /\ class_of_name u = Some c) /\
+  (exists pre, sml_tokens src = (pre ++ [[c_gt]])%list).
+Proof. exact from_sml_whole_text. Qed.
+Print Assumptions C15_whole_text_is_one_item.
+
 (* instances of the full round trip, incl. quotes, control characters, JIS-8 and nesting (evaluated instances of C15_roundtrip) *)
 Definition sample_item : val :=
   VArr [VText false [115; 97; 121; 32; 34; 104; 105; 34; 0; 255]; VText true [65; 0xff71; 0xa5];
@@ -73,6 +82,9 @@ Print Assumptions C15_roundtrip_sample.
 Theorem C15_rejection_examples :
   (forall v, from_sml (text_of_string "< L [1] < U1 5 > ") <> Ok v) /\
   (forall v, from_sml (text_of_string "< U3 5 >") <> Ok v) /\
-  (forall v, from_sml (text_of_string "< L < U1 1 > . ") <> Ok v).
+  (forall v, from_sml (text_of_string "< L < U1 1 > . ") <> Ok v) /\
+  (forall v, from_sml (text_of_string "< U1 5 > <") <> Ok v) /\
+  (forall v, from_sml (text_of_string "< U1 5 > < FOO 1 >") <> Ok v) /\
+  (forall v, from_sml (text_of_string "< U1 5 > 'never closed < A") <> Ok v).
 Proof. repeat split; intro v; vm_compute; discriminate. Qed.
 Print Assumptions C15_rejection_examples.
